@@ -845,3 +845,159 @@ func ruleCodeNarrow(c *Ctx, r *Report) {
 	}
 	r.analysed(rule, fmt.Sprintf("%d narrowing conversions of engine.Integer in the engine", n))
 }
+
+// ---------------------------------------------------------------------------
+// R-CODE-VALID (C16; added with fix F42): a character code given as a Prolog integer becomes text only after
+// utf8.ValidRune has accepted it.  Go turns an invalid code (a surrogate half) into U+FFFD when it is written
+// to a strings.Builder or converted to a string, so atom_codes(A, [0xD800]) built an atom whose codes are not
+// the given list.  At every use of rune(Integer) as text - an argument of WriteRune, a conversion to Atom or
+// to string - the branch facts contain utf8.ValidRune(rune(that Integer)) == true.  char_code/2, atom_codes/2
+// and number_codes/2 are siblings here.
+func ruleCodeValid(c *Ctx, r *Report) {
+	const rule = "R-CODE-VALID"
+	desc := "a rune converted from an Integer is used as text only under utf8.ValidRune(rune) == true"
+	n := 0
+	for _, fn := range c.LibFuncs() {
+		if funcPkg(fn) != c.Engine {
+			continue
+		}
+		seen := map[string]int{}
+		eachInstr(fn, func(in ssa.Instruction) {
+			cv, ok := in.(*ssa.Convert)
+			if !ok || !isEngNamed(cv.X.Type(), "Integer") {
+				return
+			}
+			if b, ok := cv.Type().Underlying().(*types.Basic); !ok || b.Kind() != types.Int32 {
+				return
+			}
+			for _, ref := range *cv.Referrers() {
+				use := ""
+				switch u := ref.(type) {
+				case *ssa.Call:
+					if callee := u.Call.StaticCallee(); callee != nil && callee.Name() == "WriteRune" {
+						use = "WriteRune"
+					}
+				case *ssa.Convert:
+					if isEngNamed(u.Type(), "Atom") {
+						use = "Atom()"
+					} else if b, ok := u.Type().Underlying().(*types.Basic); ok && b.Kind() == types.String {
+						use = "string()"
+					}
+				}
+				if use == "" {
+					continue
+				}
+				n++
+				base := fmt.Sprintf("%s/%s(rune(%s))", fname(fn), use, stableName(cv.X))
+				seen[base]++
+				key := fmt.Sprintf("%s#%d", base, seen[base])
+				valid := false
+				sameCode := func(arg ssa.Value) bool {
+					if arg == ssa.Value(cv) || c.sameVar(arg, cv.X) {
+						return true
+					}
+					acv, ok := arg.(*ssa.Convert)
+					return ok && c.sameVar(acv.X, cv.X)
+				}
+				for f := range c.factsAt(ref.Block()) {
+					call, ok := f.cond.(*ssa.Call)
+					if !ok || !f.pol || !isValidRuneCall(call) {
+						continue
+					}
+					if sameCode(call.Call.Args[0]) {
+						valid = true
+					}
+				}
+				// a helper that answers true only for codes utf8.ValidRune accepts
+				for f := range c.factsAt(ref.Block()) {
+					call, ok := f.cond.(*ssa.Call)
+					if !ok || !f.pol || valid {
+						continue
+					}
+					callee := call.Call.StaticCallee()
+					if callee == nil || funcPkg(callee) != c.Engine {
+						continue
+					}
+					for i, a := range call.Call.Args {
+						if sameCode(a) && i < len(callee.Params) && c.trueImpliesValidRune(callee, callee.Params[i]) {
+							valid = true
+						}
+					}
+				}
+				if valid {
+					r.ok(rule, key, c.at(ref), desc, "under utf8.ValidRune of the same code", true)
+				} else {
+					r.bad(rule, base, c.at(ref), desc, "the code is used as text without utf8.ValidRune: a surrogate half (0xD800..0xDFFF) becomes U+FFFD, a character the caller did not give")
+				}
+			}
+		})
+	}
+	if n == 0 {
+		r.bad(rule, "scan/uses", "-", desc, "no use of rune(Integer) as text found in the engine")
+	}
+	r.analysed(rule, fmt.Sprintf("%d uses of rune(Integer) as text in the engine", n))
+}
+
+func isValidRuneCall(call *ssa.Call) bool {
+	callee := call.Call.StaticCallee()
+	return callee != nil && callee.Pkg != nil && callee.Pkg.Pkg.Path() == "unicode/utf8" && callee.Name() == "ValidRune" && len(call.Call.Args) == 1
+}
+
+// trueImpliesValidRune: fn returns one bool, and every value it can return other than the constant false is
+// either utf8.ValidRune(param) itself or is returned where utf8.ValidRune(param) is known true.
+func (c *Ctx) trueImpliesValidRune(fn *ssa.Function, param *ssa.Parameter) bool {
+	if fn.Blocks == nil || fn.Signature.Results().Len() != 1 {
+		return false
+	}
+	onParam := func(v ssa.Value) bool {
+		if v == ssa.Value(param) {
+			return true
+		}
+		cv, ok := v.(*ssa.Convert)
+		return ok && cv.X == ssa.Value(param)
+	}
+	knownValid := func(b *ssa.BasicBlock) bool {
+		for f := range c.factsAt(b) {
+			if call, ok := f.cond.(*ssa.Call); ok && f.pol && isValidRuneCall(call) && onParam(call.Call.Args[0]) {
+				return true
+			}
+		}
+		return false
+	}
+	var okValue func(v ssa.Value, at *ssa.BasicBlock, depth int) bool
+	okValue = func(v ssa.Value, at *ssa.BasicBlock, depth int) bool {
+		if depth > 8 {
+			return false
+		}
+		switch x := v.(type) {
+		case *ssa.Const:
+			if x.Value != nil && x.Value.String() == "false" {
+				return true
+			}
+			return knownValid(at)
+		case *ssa.Call:
+			if isValidRuneCall(x) && onParam(x.Call.Args[0]) {
+				return true
+			}
+			return knownValid(at)
+		case *ssa.Phi:
+			for i, e := range x.Edges {
+				if !okValue(e, x.Block().Preds[i], depth+1) {
+					return false
+				}
+			}
+			return true
+		}
+		return knownValid(at)
+	}
+	found := false
+	for _, b := range fn.Blocks {
+		if ret, ok := b.Instrs[len(b.Instrs)-1].(*ssa.Return); ok {
+			found = true
+			if !okValue(ret.Results[0], b, 0) {
+				return false
+			}
+		}
+	}
+	return found
+}
